@@ -493,17 +493,31 @@ def outer(a, b):
 def _factors(d):
     """atomic multiplicative factors of a dimension (ints > 1 and symbolic atoms)"""
     if isinstance(d, int):
-        return [] if d == 1 else [d]
+        return _prime_factors(d)
     z = z3.simplify(d.z)
     if z3.is_int_value(z):
-        v = z.as_long()
-        return [] if v == 1 else [v]
+        return _prime_factors(z.as_long())
     if z3.is_app(z) and z.decl().kind() == z3.Z3_OP_MUL:
         out = []
         for c in z.children():
             out += _factors(SInt(c))
         return out
     return [SInt(z)]
+
+
+def _prime_factors(v):
+    if v <= 1:
+        return [] if v == 1 else [v]
+    out = []
+    p = 2
+    while p * p <= v and len(out) < 40:
+        while v % p == 0:
+            out.append(p)
+            v //= p
+        p += 1
+    if v > 1:
+        out.append(v)
+    return out
 
 
 def _same_factor(x, y):
@@ -1284,6 +1298,102 @@ def diag(v):
         n = v.shape[0]
         return SArr((n, n), lambda idx: ite(lift(idx[0]) == idx[1], v.at(idx[0]), _cast_in(0, v.dtype)), v.dtype)
     raise Unsupported('diag of matrix')
+
+
+def _minor(rows, i, j):
+    return [[rows[r][c] for c in range(len(rows)) if c != j] for r in range(len(rows)) if r != i]
+
+
+def _det(rows):
+    n = len(rows)
+    if n == 1:
+        return rows[0][0]
+    if n == 2:
+        return rows[0][0] * rows[1][1] - rows[0][1] * rows[1][0]
+    acc = 0
+    for j in range(n):
+        e = rows[0][j]
+        if sc_is_zero(e):
+            continue
+        t = e * _det(_minor(rows, 0, j))
+        acc = acc + t if j % 2 == 0 else acc - t
+    return acc
+
+
+def sc_is_zero(x):
+    from .symarr import _is_zero
+    return _is_zero(x)
+
+
+class _Linalg:
+    @staticmethod
+    def inv(a):
+        """exact inverse by the adjugate formula (n <= 4, last two axes); det != 0 is a safety obligation."""
+        _log('linalg.inv: adjugate/det, exact')
+        a = asarray(a)
+        n = a.shape[-1]
+        if not isinstance(n, int) or n > 4 or a.shape[-2] != n:
+            raise Unsupported('inv of non-small matrix')
+        nb = a.ndim - 2
+        dt = a.dtype if a.dtype.kind in 'fc' else DT('f', 64)
+        cache = {}
+
+        def fn(idx):
+            b = idx[:nb]
+            key = tuple(i if isinstance(i, int) else ('z', z3.simplify(i.z).get_id()) for i in b)
+            ent = cache.get(key)
+            if ent is None:
+                rows = [[a.at(*(b + (r, c))) for c in range(n)] for r in range(n)]
+                d = _det(rows)
+                ent = (rows, d, b)
+                cache[key] = ent
+            rows, d, _ = ent
+            i, j = idx[nb], idx[nb + 1]
+            if not (isinstance(i, int) and isinstance(j, int)):
+                raise Unsupported('symbolic index into inverse')
+            cof = _det(_minor(rows, j, i)) if n > 1 else 1
+            if (i + j) % 2:
+                cof = -cof
+            return cof / d
+        return SArr(a.shape, fn, dt)
+
+    @staticmethod
+    def det(a):
+        a = asarray(a)
+        n = a.shape[-1]
+        if a.ndim != 2 or not isinstance(n, int) or n > 4:
+            raise Unsupported('det')
+        return _det([[a.at(r, c) for c in range(n)] for r in range(n)])
+
+    @staticmethod
+    def norm(a, *args, **kw):
+        a = asarray(a)
+        if a.ndim == 1 and isinstance(a.shape[0], int) and not args and not kw:
+            acc = 0
+            for k in range(a.shape[0]):
+                v = a.at(k)
+                acc = acc + (v.abs2() if isinstance(v, Cx) else v * v)
+            return sc.ssqrt(acc)
+        raise Unsupported('linalg.norm')
+
+    def __getattr__(self, k):
+        raise Unsupported('linalg.%s is not modelled' % k)
+
+
+linalg = _Linalg()
+
+
+def kron(a, b):
+    _log('kron')
+    a, b = asarray(a), asarray(b)
+    if a.ndim != 2 or b.ndim != 2:
+        raise Unsupported('kron of rank != 2')
+    p, q = b.shape
+    if not (isinstance(p, int) and isinstance(q, int)):
+        raise Unsupported('kron with symbolic block')
+    dt = promote(a.dtype, b.dtype)
+    return SArr((a.shape[0] * p, a.shape[1] * q),
+                lambda idx: a.at(idx[0] // p, idx[1] // q) * b.at(idx[0] % p, idx[1] % q), dt)
 
 
 class _Random:
